@@ -209,6 +209,14 @@ def handle (fields : List String) : String :=
         | .ok ast => "ok\t" ++ encQuery ast
         | .error err => encCompileErr err
       | _, _ => "bad-request"
+  | ["api.glue", env, q] =>
+      -- JSONPathQuery.singular_query() / .empty() of the compiled query
+      match (readSexp env).bind decEnv, decStr q with
+      | some e, some s =>
+        match Impl.compile e.toImpl s with
+        | .ok ast => s!"glue singular={if Query.isSingular ast then 1 else 0} empty={if ast.isEmpty then 1 else 0}"
+        | .error err => encCompileErr err
+      | _, _ => "bad-request"
   | ["position", q, off] =>
       match decStr q, off.toNat? with
       | some s, some o => let p := Impl.position s o; s!"{p.1} {p.2}"
